@@ -49,6 +49,9 @@ func oneEditCases() []gen.Str {
 		for _, s := range gen.OneEditNeighbourhood(r.Ver, r.S) {
 			oneEditMemo = append(oneEditMemo, gen.Str{S: gen.BStr(s), Source: "one-edit"})
 		}
+		for _, s := range gen.PoolSubstitutions(r.Ver, r.S) {
+			oneEditMemo = append(oneEditMemo, gen.Str{S: gen.BStr(s), Source: "one-edit"})
+		}
 	}
 	// every order-preserving subsequence of the v2 metric list; every subset of the base metrics of v3/v4
 	for _, s := range gen.Subsequences() {
@@ -277,6 +280,21 @@ func TestC13(t *testing.T) {
 		}
 		return c
 	}, checkTransplant)
+	if env.Shards <= 1 {
+		// Vector() of every base x temporal / threat combination (thorough: x every requirement combination)
+		for vi, v := range spec.Versions {
+			k := quickPrefix(vi)
+			if env.Tier == "thorough" && !env.Light {
+				k = fullPrefix(vi)
+			}
+			sp := newPrefixSpace(vi, k)
+			Enum(h, "vector-owner", sp.size(), func(i int) VecOut { return VecOut{Ver: vi, A: sp.assignment(i)} }, nil, checkVectorOwner)
+			if !h.replaying() {
+				h.R.AddExact(int64(sp.size()), int64(sp.size()))
+				h.R.Count(fmt.Sprintf("v%s exhaustive: Vector() of every combination of the first %d metrics offered to all four parsers", v.Name, k), int64(sp.size()))
+			}
+		}
+	}
 	Rapid(h, "vector-owner", n/3, func(rt *rapid.T) VecOut {
 		vi := gen.Version(rt)
 		a, prof := gen.Object(rt, vi)
@@ -451,11 +469,11 @@ func TestC06(t *testing.T) {
 	for vi, v := range spec.Versions {
 		for _, m := range v.Metrics {
 			for _, val := range m.Vals {
-				if !covs[vi].written[m.Abv+":"+val] {
+				if !covs[vi].written[m.Abv+":"+val] && !env.Light {
 					h.R.Inconclusive("v%s %s:%s never written", v.Name, m.Abv, val)
 				}
 			}
-			if !m.Mandatory && !covs[vi].omitted[m.Abv] {
+			if !m.Mandatory && !covs[vi].omitted[m.Abv] && !env.Light {
 				h.R.Inconclusive("v%s optional %s never omitted", v.Name, m.Abv)
 			}
 		}
@@ -563,6 +581,26 @@ func TestC08(t *testing.T) {
 			}
 			h.R.AddExact(int64(len(pv)), int64(nc))
 			h.R.Count("exhaustive: every ordered pair of metrics x every pair of values (v3: written first, i.e. non-canonical)", int64(len(pv)))
+		}
+	}
+	if env.Shards <= 1 {
+		// every base combination x every temporal / threat combination in canonical spelling (thorough:
+		// x every security-requirement combination): one particular object answered from a table,
+		// or the all-zero object taken for "nothing set", is in here
+		for vi, v := range spec.Versions {
+			k := quickPrefix(vi)
+			if env.Tier == "thorough" && !env.Light {
+				k = fullPrefix(vi)
+			}
+			sp := newPrefixSpace(vi, k)
+			Enum(h, "valid", sp.size(), func(i int) gen.Valid {
+				a := sp.assignment(i)
+				return gen.Valid{Ver: vi, S: spec.Canon(v, a), A: a, Layout: "canonical"}
+			}, nil, checkCanonical)
+			if !h.replaying() {
+				h.R.AddExact(int64(sp.size()), 0)
+				h.R.Count(fmt.Sprintf("v%s exhaustive: every combination of the first %d metrics (canonical input; fixed point and reparse)", v.Name, k), int64(sp.size()))
+			}
 		}
 	}
 	Rapid(h, "any", n, func(rt *rapid.T) gen.Str {
